@@ -51,9 +51,9 @@ def run(ctx):
               'tables, diff, sign, angle, argrelextrema, splrep/splev/Pchip linear in the ordinates, log10 as an '
               'additive shift, ...); a primitive missing from the table is TOP and fails the obligation')
     ctx.assume("'abs' mask amplitude mode is not homogeneous by design and is outside the statement (ratio modes only)")
-    rule_homogeneity(ctx, 'C02.R1')
-    rule_conjugacy(ctx, 'C02.R2')
-    rule_symmetry(ctx, 'C02.R3')
+    ctx.rule(rule_homogeneity, 'C02.R1')
+    ctx.rule(rule_conjugacy, 'C02.R2')
+    ctx.rule(rule_symmetry, 'C02.R3')
 
 
 def rule_homogeneity(ctx, rid):
